@@ -85,7 +85,10 @@ HelpSubDef == [name |-> HELP, auto_help |-> TRUE]
 \* ---- Command::_build_self ----------------------------------------------
 \* d: definition; inh: what the parent propagated (global settings, global args, version)
 Build(d, inh) ==
-  LET S(n) == IF n \in GlobalSettingNames THEN d.s[n] \/ inh.gs[n] ELSE d.s[n]
+  LET S0(n) == IF n \in GlobalSettingNames THEN d.s[n] \/ inh.gs[n] ELSE d.s[n]
+      \* a multicall command: SubcommandRequired, DisableHelpFlag and DisableVersionFlag are set on its own settings
+      \* (not on the global ones: children are unaffected)
+      S(n) == IF d.s.multicall /\ n \in {"subcommand_required", "disable_help_flag", "disable_version_flag"} THEN TRUE ELSE S0(n)
       hasVersion == d.version \/ inh.version
       noSubs == d.subs = <<>>
       disHelpSub == S("disable_help_subcommand") \/ noSubs
@@ -99,13 +102,13 @@ Build(d, inh) ==
   IN [name |-> d.name, aliases |-> d.aliases, short_flag |-> d.short_flag, long_flag |-> d.long_flag,
       long_flag_aliases |-> d.long_flag_aliases, short_flag_aliases |-> d.short_flag_aliases, hide |-> d.hide, about |-> d.about,
       s |-> [n \in DOMAIN d.s |-> S(n)] @@ [eff_disable_help_subcommand |-> disHelpSub],
-      gs |-> [n \in GlobalSettingNames |-> S(n)],
+      gs |-> [n \in GlobalSettingNames |-> S0(n)],
       hasVersion |-> hasVersion,
       args |-> args, groups |-> d.groups,
       \* subcommand definitions stay unbuilt until dispatched (Command::_build_subcommand)
       subs |-> d.subs, autoHelpSub |-> ~disHelpSub,
       \* what _propagate / _propagate_global_args hand to every child
-      childInh |-> [gs |-> [n \in GlobalSettingNames |-> S(n)],
+      childInh |-> [gs |-> [n \in GlobalSettingNames |-> S0(n)],
                     gargs |-> SelectSeq(args, LAMBDA a : a.global),
                     version |-> S("propagate_version") /\ hasVersion]]
 
